@@ -432,6 +432,7 @@ def cumsum(E, a: Tensor):
     v, *_ = prove(E.st.pc, E.st.qfacts, prem, extra_pool=list(E.st.pool) + [sk], timeout_ms=4000, quick=True)
     t.monotone = v == "unsat"
     E.st.ghost["last_cumsum"] = t
+    E.st.ghost.setdefault("cumsums", []).append(t)
     if t.monotone:
         E.st.assume_forall([INT, INT], lambda i, j: z3.Implies(z3.And(i >= 0, i <= j, j < nz), cs(i) <= cs(j)), "cumsum.monotone")
     return t
@@ -563,9 +564,21 @@ def _generator(E, obj, name):
             k = len(shape)
             # half-open unit interval, excluding 0 (property quantifier: (0,1))
             E.st.assume_forall([INT] * k, lambda *q: z3.And(C.as_real(u.at(*q)) > 0, C.as_real(u.at(*q)) < 1), "uniform.unit") if k else E.assume(C.band(u.at() > 0, u.at() < 1))
-            res = T.elementwise(lambda uu, lo, hi: C.binop("+", lo, C.binop("*", uu, C.binop("-", hi, lo))), u, lt, ht)
+            if lt.ndim == 0 and ht.ndim == 0 and lt.at() == 0 and ht.at() == 1:
+                res = u
+            else:
+                # opaque result + named defining fact (reveal with using=["uniform.def"]):
+                # keeps later queries linear in the drawn points
+                res = T.fresh_tensor("unifpt", shape, REAL, is_input=False)
+                defn = lambda *q: C.as_real(res.at(*q)) == C.as_real(lt.at(*T._bidx(lt, k, q))) + C.as_real(u.at(*q)) * (C.as_real(ht.at(*T._bidx(ht, k, q))) - C.as_real(lt.at(*T._bidx(lt, k, q))))  # noqa: E731
+                if k:
+                    E.st.assume_forall([INT] * k, defn, "uniform.def")
+                else:
+                    E.assume(defn())
+                res = T.unwrap0(res)
             if isinstance(res, Tensor):
                 res.unit = u
+                res.np_strict = True
             E.st.ghost["last_uniform_unit"] = u
             E.st.ghost["last_uniform_bounds"] = (lt, ht)
             E.st.ghost["last_uniform_points"] = res
